@@ -22,6 +22,17 @@ from malt.lang import directives
 from malt.pyct import templates
 
 
+def _is_symbol(node):
+  """Whether node is a plain, possibly dotted, name.
+
+  Only such a target can appear both as the container that is read and as the
+  target that receives the updated container.
+  """
+  while isinstance(node, ast.Attribute):
+    node = node.value
+  return isinstance(node, ast.Name)
+
+
 class SliceTransformer(converter.Base):
   """Converts slicing operations to their TF counterpart.
 
@@ -46,6 +57,10 @@ class SliceTransformer(converter.Base):
     s = target.slice
     if isinstance(s, (ast.Tuple)):
       # multi-dimensional indices are not supported
+      return None
+    if not _is_symbol(target.value):
+      # e.g. `f()[i] = v` or `a[i][j] = v`: the container is not assignable and
+      # must be evaluated only once
       return None
 
     template = """
@@ -82,6 +97,8 @@ class SliceTransformer(converter.Base):
       return None
     s = target.slice
     if isinstance(s, (ast.Tuple, ast.Call)):
+      return None
+    if not _is_symbol(target.value):
       return None
     if not isinstance(op, (ast.Mult, ast.Add, ast.Sub, ast.Div, ast.Pow)):
       return None
